@@ -130,7 +130,7 @@ func linkCorr(c *Ctx) {
 	srcs := append([]string{}, linkExtra...)
 	srcs = append(srcs, corrSources(c, c.N(5), 2000)...)
 	// Coq elaborates a cases file at roughly 20-25 s per MB: the total size is budgeted
-	budget, used := c.N(900000), 0
+	budget, used := c.Budget(900000), 0
 	add := func(src string) {
 		if t, ok := linkCaseTerm(src); ok && used+len(t) <= budget {
 			used += len(t)
